@@ -867,8 +867,123 @@ def rule_optional_groups_normalised(ctx, rep, rid: str, floor: int = 4) -> None:
             key = f"{f.qual}:{norm(read)}"
             if none_aware(read, f):
                 rep.ok(rid, key)
+                continue
+            sink = _none_reaches_script(ctx, read, f, none_aware, 0)
+            if sink is None:
+                rep.ok(rid, key, {"note": "not tested here, but the value never reaches a script-visible place un-tested"})
             else:
-                rep.bad(rid, key, f"{f.qual} reads capture group {norm(read)} of a match object and uses it without a None test: a group that did not participate is Python None and travels on (callback argument, array element, string operation) as a value of no JavaScript type", f"{f.module.rel}:{read.lineno}")
+                rep.bad(rid, key, f"{f.qual} reads capture group {norm(read)} of a match object and hands it on without a None test ({sink}): a group that did not participate is Python None and reaches script code as a value of no JavaScript type", f"{f.module.rel}:{read.lineno}")
+
+
+def _none_reaches_script(ctx, src: ast.AST, f: Func, none_aware, depth: int) -> Optional[str]:
+    """Where does the value of expression `src` (possibly None) go?  Followed through list/tuple displays,
+    comprehensions, locals and parameters of resolved callees (two levels); a use that tests for None stops the
+    flow.  Returns a description of the first script-visible sink: argument of a call that can run script code,
+    element/property of a script object, operand stack, result of a native function."""
+    from .builtins import _reentrant_sites
+
+    re_sites = {id(c) for c in _reentrant_sites(ctx, f)}
+    is_native = id(f) in ctx.cg.natives
+    tainted_exprs: List[ast.AST] = [src]
+    tainted_names: Set[str] = set()
+    seen: Set[int] = set()
+    while tainted_exprs:
+        e = tainted_exprs.pop()
+        if id(e) in seen:
+            continue
+        seen.add(id(e))
+        p = getattr(e, "_parent", None)
+        if p is None:
+            continue
+        if e is not src and none_aware(e, f):
+            continue
+        # containers and wrappers keep the value
+        if isinstance(p, (ast.List, ast.Tuple, ast.Starred, ast.Set)) or (isinstance(p, ast.IfExp) and p.test is not e) or (isinstance(p, ast.BoolOp) and p.values[-1] is e):
+            tainted_exprs.append(p)
+            continue
+        if isinstance(p, (ast.ListComp, ast.GeneratorExp, ast.SetComp)) and p.elt is e:
+            tainted_exprs.append(p)
+            continue
+        if isinstance(p, ast.Assign):
+            for t in p.targets:
+                if isinstance(t, ast.Name):
+                    tainted_names.add(t.id)
+                    for u in f.own_nodes():
+                        if isinstance(u, ast.Name) and u.id == t.id and isinstance(u.ctx, ast.Load) and u.lineno >= p.lineno:
+                            tainted_exprs.append(u)
+                elif isinstance(t, ast.Attribute) and t.attr in ("_elements", "_properties"):
+                    return f"stored as {norm(t)} at line {p.lineno}"
+                elif isinstance(t, ast.Subscript) and isinstance(t.value, ast.Attribute) and t.value.attr in ("_elements", "_properties", "locals", "stack"):
+                    return f"stored into {norm(t.value)} at line {p.lineno}"
+            continue
+        if isinstance(p, ast.Subscript) and p.value is e and not isinstance(p.slice, ast.Slice):
+            tainted_exprs.append(p)  # an element of a tainted sequence
+            continue
+        if isinstance(p, ast.Subscript) and p.value is e:
+            tainted_exprs.append(p)
+            continue
+        if isinstance(p, ast.comprehension) and p.iter is e:
+            comp = getattr(p, "_parent", None)
+            for u in ast.walk(comp):
+                if isinstance(u, ast.Name) and isinstance(u.ctx, ast.Load) and any(isinstance(x, ast.Name) and x.id == u.id for x in ast.walk(p.target)):
+                    tainted_exprs.append(u)
+            continue
+        if isinstance(p, ast.For) and p.iter is e:
+            for st in p.body:
+                for u in ast.walk(st):
+                    if isinstance(u, ast.Name) and isinstance(u.ctx, ast.Load) and any(isinstance(x, ast.Name) and x.id == u.id for x in ast.walk(p.target)):
+                        tainted_exprs.append(u)
+            continue
+        if isinstance(p, ast.Return):
+            if is_native:
+                return f"returned by the native function at line {p.lineno}"
+            if depth < 2:
+                # the value goes back to the callers of f
+                for cs in ctx.cg.sites:
+                    if cs.kind == "resolved" and any(t is f for t in cs.targets):
+                        r = _none_reaches_script(ctx, cs.call, cs.func, none_aware, depth + 1)
+                        if r:
+                            return r
+            continue
+        if isinstance(p, ast.keyword):
+            call = getattr(p, "_parent", None)
+            arg_index, kw = None, p.arg
+        elif isinstance(p, ast.Call) and e in p.args:
+            call, arg_index, kw = p, p.args.index(e), None
+        elif isinstance(p, ast.Call) and isinstance(p.func, ast.Attribute) and p.func.value is e:
+            continue  # a method of the value itself: a host error at worst, not a value handed to the script
+        else:
+            continue
+        if not isinstance(call, ast.Call):
+            continue
+        fnn = norm(call.func)
+        if id(call) in re_sites:
+            return f"argument of {short(call, 50)} at line {call.lineno}, which can run script code"
+        if fnn.endswith("._elements.append") or fnn.endswith("._elements.extend") or fnn.endswith("._elements.insert") or fnn.endswith("stack.append") or (isinstance(call.func, ast.Attribute) and call.func.attr == "set" and arg_index == 1):
+            return f"stored by {short(call, 50)} at line {call.lineno}"
+        if isinstance(call.func, ast.Attribute) and call.func.attr in ("append", "extend", "insert") and isinstance(call.func.value, ast.Name):
+            # a host list that collects the value
+            nm = call.func.value.id
+            for u in f.own_nodes():
+                if isinstance(u, ast.Name) and u.id == nm and isinstance(u.ctx, ast.Load) and u is not call.func.value:
+                    tainted_exprs.append(u)
+            continue
+        cs = ctx.cg.site_of_call.get(id(call))
+        if cs is not None and cs.kind == "resolved" and depth < 2:
+            from ..util import bind_args
+
+            for tg in cs.targets:
+                if isinstance(tg.node, ast.Lambda):
+                    continue
+                b = bind_args(call, tg)
+                for pname, a in b.items():
+                    if a is e or (isinstance(a, ast.Starred) and a.value is e):
+                        for u in tg.own_nodes():
+                            if isinstance(u, ast.Name) and u.id == pname and isinstance(u.ctx, ast.Load):
+                                r = _none_reaches_script(ctx, u, tg, none_aware, depth + 1)
+                                if r:
+                                    return f"through parameter `{pname}` of {tg.name}: {r}"
+    return None
 
 
 # ---- "is it an object?" decisions never count null as one ---------------------------------------------
